@@ -131,9 +131,32 @@ func c15Paths() []Path {
 	return bothModes(es)
 }
 
+// c15Exists: the existence-only walk agrees with the collecting walk: Exists is true iff Query yields an item.
+func c15Exists(c Case) *Failure {
+	p, err, pan := parseCached(c.Path)
+	if err != nil || pan != "" {
+		return &Failure{Sig: "C15/parse", Expected: "parses", Observed: fmt.Sprint(err, pan)}
+	}
+	doc := mustDoc(c.Doc, "float64")
+	q, e, f := implQuery(p, doc, runCfg{}), implExists(p, doc, runCfg{}), implFirst(p, doc, runCfg{})
+	if q.Class != "ok" {
+		return nil // compared with the reference elsewhere
+	}
+	if e.Class != "ok" || e.Bool != (len(q.Items) > 0) {
+		return &Failure{Sig: "C15/exists-differs-from-query", Expected: fmt.Sprint(len(q.Items) > 0, " (Query: ", q.String(), ")"), Observed: e.String()}
+	}
+	if f.Class != "ok" || (len(q.Items) == 0 && f.Items[0] != nil) || (len(q.Items) > 0 && !containsCanon(q.Items, f.Items[0])) {
+		return &Failure{Sig: "C15/first-differs-from-query", Expected: q.String(), Observed: f.String()}
+	}
+	return nil
+}
+
 func checkC15(c Case) *Failure {
 	if c.Rule == "any-equivalences" {
 		return checkC15Equiv(c)
+	}
+	if c.Rule == "exists-agrees-with-query" {
+		return c15Exists(c)
 	}
 	f, _ := compareQueryWithRef("C15", c, nil)
 	return f
@@ -178,6 +201,19 @@ func runC15(r *Run) {
 	r.Bound("documents", len(docs))
 	r.Bound("paths", len(paths))
 	refSweep(r, "wildcards-vs-tree-walk", paths, docs, cfgsNum())
+	// the existence-only walk (Exists, First) on the same paths, one third of the documents each
+	r.ParFor(len(paths), func(i int) {
+		text := paths[i].String()
+		r.Note(i, text)
+		for di := i % 3; di < len(docs); di += 3 {
+			c := Case{Rule: "exists-agrees-with-query", Path: text, Doc: docs[di].text, Num: "float64"}
+			r.evals.Add(1)
+			r.traces.Add(3)
+			if f := c15Exists(c); f != nil {
+				r.Fail(c, f)
+			}
+		}
+	})
 	// equivalences
 	pairs := [][2]string{{"$.**", "$.**{0 to last}"}, {"strict $.**", "strict $.**{0 to last}"}, {"$.**.a", "$.**{0 to last}.a"},
 		{"strict $.**{1}", "strict $.**{1 to 1}"}, {"$.**{2}", "$.**{2 to 2}"}}
